@@ -60,6 +60,14 @@ func urlValueFor(r *gen.R, f *ir.Field, sample string, isPath bool) urlVal {
 			uv.text, uv.class = "1e400", "out_of_range"
 		case 2:
 			uv.text, uv.class = "NaN", "valid"
+		case 3:
+			// beyond the float32 range, inside the float64 range: out of range for `float` only
+			uv.text, uv.class = gen.Pick(r, []string{"1e39", "-4e38", "3.5e38"}), "valid"
+			if f.Kind == "float" {
+				uv.class = "out_of_range"
+			}
+		case 4:
+			uv.text, uv.class = gen.Pick(r, []string{"3.4028235e38", "-3.4028235e38", "1e-46"}), "valid" // the float32 edges
 		}
 	default:
 		switch pick {
